@@ -74,6 +74,11 @@ func buildGroup(g *gnode) *quickfix.RepeatingGroup {
 			}
 			e = rev
 		}
+		if len(e) >= 1 && e[0].Grp == nil && (len(e)+2*len(g.Entries))%4 == 1 {
+			// a member set, taken out again and set anew (below) is there once
+			ge.SetString(quickfix.Tag(e[0].Tag), "withdrawn")
+			ge.Remove(quickfix.Tag(e[0].Tag))
+		}
 		for _, f := range e {
 			if f.Grp != nil {
 				if len(f.Grp.Entries) >= 2 && len(f.Grp.Entries)%2 == 0 {
@@ -292,7 +297,32 @@ func roundTrip(r *core.Result, mode string, begin, msgType string, g *gnode, oth
 		if len(g.Entries) >= 2 && len(g.Entries)%2 == 0 {
 			m.Body.SetGroup(buildGroup(&gnode{Tag: g.Tag, Tmpl: g.Tmpl, Entries: g.Entries[:1]})) // replaced below
 		}
-		m.Body.SetGroup(buildGroup(g))
+		rg := buildGroup(g)
+		if n := len(g.Entries); n >= 1 && (n+len(others))%3 == 0 {
+			// the same group object was written into another message before, and one of its entries amended since:
+			// what it holds now is what must come back
+			k := (n + len(others)) % n
+			var plain *gfield
+			for i := range g.Entries[k] {
+				if g.Entries[k][i].Grp == nil {
+					plain = &g.Entries[k][i]
+					break
+				}
+			}
+			if plain != nil {
+				rg.Get(k).SetString(quickfix.Tag(plain.Tag), "earlier value")
+				scratch := quickfix.NewMessage()
+				scratch.Body.SetGroup(rg)
+				_ = scratch.String()
+				rg.Get(k).SetString(quickfix.Tag(plain.Tag), plain.Val)
+				for _, f := range g.Entries[k] {
+					if f.Grp != nil {
+						rg.Get(k).SetGroup(buildGroup(f.Grp))
+					}
+				}
+			}
+		}
+		m.Body.SetGroup(rg)
 		readTmpl = tmplOf(g.Tmpl)
 	}
 	for _, sg := range siblings {
